@@ -16,6 +16,8 @@ import (
 	"os"
 	"sort"
 	"strings"
+	"sync"
+	"sync/atomic"
 	"time"
 
 	"github.com/paulmach/osm/replication"
@@ -127,6 +129,27 @@ type result struct {
 }
 
 const watchdog = 60 * time.Second
+
+// hangs counts lookups that the watchdog had to give up on (confirmed). Their
+// goroutines keep spinning, so the enumeration stops after a few of them.
+var hangs int64
+
+const maxHangs = 3
+
+// skip reports whether the enumeration has to stop (time cap or hangs).
+func skip(r *kit.Run) bool {
+	if atomic.LoadInt64(&hangs) >= maxHangs {
+		capOnce.Do(func() { r.Capped("lookups hang without making requests; stopped after 3 confirmed cases") })
+		return true
+	}
+	if r.TimeUp() {
+		capOnce.Do(func() { r.Capped("driver time cap reached") })
+		return true
+	}
+	return false
+}
+
+var capOnce sync.Once
 
 // runSearch performs one lookup. budget bounds the number of answered
 // requests; faultAt > 0 makes that request fail.
@@ -330,6 +353,7 @@ func checkSearch(r *kit.Run, c Case) {
 		// last resort: no verdict from the request budget. Confirm once.
 		res2 := runSearch(d, t, budget, 0, 0)
 		if res2.Hung {
+			atomic.AddInt64(&hangs, 1)
 			viol(r, "nonterminating/no-requests/"+sit,
 				fmt.Sprintf("%s: no result after %v and only %d requests (confirmed by a second run); requests: %s",
 					desc, watchdog, len(res2.Reqs), trace(res2.Reqs, d, 30)), ac)
@@ -759,7 +783,9 @@ func main() {
 			"a faulted lookup when the failing request is not the first; fingerprint = all case fields.")
 		r.Assume("net/http client plumbing, compress/gzip and package time are trusted; the in-process transport verif/gen/fakehttp stands in for the planet server")
 		r.Assume("timestamps only enter the search through comparisons, so one strictly increasing assignment per kind (second resolution for minute/hour/day, nanoseconds for changesets) with query times at, 1 s before and 1 s after the states covers every ordering")
-		r.Assume("termination is decided by a request budget (10N+20 small; 10+4*ceil(log2 N)+gap*(ceil(log2 N)+2) large), not by time; a 60 s watchdog only guards against loops that make no requests")
+		r.Assume("termination is decided by a request budget (10N+20 small; 10+4*ceil(log2 N)+gap*(ceil(log2 N)+2) large), not by time: past it every request fails. " +
+			"A lookup that used up the budget is reported as nonterminating/<how its request log repeats>, or in the large family, when the log does not repeat, as request-count/... " +
+			"A 60 s watchdog only guards against loops that make no requests; it is confirmed by one re-run, and the run stops (capped) after 3 such cases")
 
 		if r.ReplayPath != "" {
 			var c Case
@@ -789,19 +815,34 @@ func main() {
 		r.Set("large_N", largeNs)
 
 		us := urlCases()
-		r.Par(len(us), func(i int) { checkURL(r, us[i]) })
+		r.Par(len(us), func(i int) {
+			if !skip(r) {
+				checkURL(r, us[i])
+			}
+		})
 
 		small := smallCases(nSmall)
 		r.Set("cases_small", len(small))
-		r.Par(len(small), func(i int) { checkSearch(r, small[i]) })
+		r.Par(len(small), func(i int) {
+			if !skip(r) {
+				checkSearch(r, small[i])
+			}
+		})
 
 		large := largeCases(r.Quick())
 		r.Set("cases_large", len(large))
-		r.Par(len(large), func(i int) { checkSearch(r, large[i]) })
+		r.Par(len(large), func(i int) {
+			if !skip(r) {
+				checkSearch(r, large[i])
+			}
+		})
 
 		fb := smallCases(nFault)
 		r.Set("fault_base_cases", len(fb))
 		r.Par(len(fb), func(i int) {
+			if skip(r) {
+				return
+			}
 			b := fb[i]
 			b.Family = "fault"
 			checkFaultBase(r, b, maxK)
